@@ -129,6 +129,8 @@ def m_live(viol, world, layer):
     for p in world.liveness_problems():
         viol.add(p['kind'], '%s: %s at %s' % (p['thread'], p['exc'], p['where']), layer=layer, where=p['where'],
                  exc=p['exc'].split('(')[0])
+    for msg in world.bystander_problems():
+        viol.add('cross_talk', 'an unconnected ECU object in the same process was affected: %s' % msg, layer=layer, what=' '.join(w for w in msg.split(' (')[0].split(':')[0].split() if not w[:1].isdigit())[:40])
     n = 0
     for s in world.stacks:
         n += 1
